@@ -109,7 +109,7 @@ type World struct {
 	AfterStep   []func(ev *Event)
 	BeforeExec  []func(ev *Event)
 	OnReturn    []func(ev *Event, ok bool, err *tss.Error) // right after the party call returned, before its output is routed
-	DupAll      bool // duplicate-everything strategy: re-queue one copy of every delivery
+	DupAll      bool                                       // duplicate-everything strategy: re-queue one copy of every delivery
 	MaxSteps    int
 	Panics      []string
 }
